@@ -180,6 +180,123 @@ def verify_p2pkh_input(tx, index, spent_script, ec):
     return out
 
 
+OP_EQUAL, OP_CHECKLOCKTIMEVERIFY, OP_DROP = 0x87, 0xb1, 0x75
+
+
+def p2sh_hash(script_pubkey):
+    """The 20-byte script hash of a BIP16 pay-to-script-hash output (OP_HASH160 <20> OP_EQUAL), else None."""
+    script_pubkey = bytes(script_pubkey)
+    if len(script_pubkey) == 23 and script_pubkey[0] == OP_HASH160 and script_pubkey[1] == 20 \
+            and script_pubkey[22] == OP_EQUAL:
+        return script_pubkey[2:22]
+    return None
+
+
+def p2sh_script(script_hash):
+    assert len(script_hash) == 20
+    return bytes((OP_HASH160, 20)) + bytes(script_hash) + bytes((OP_EQUAL,))
+
+
+def script_num(n):
+    """Minimal script-number encoding (little endian, sign bit in the top byte) of a non-negative integer."""
+    assert n >= 0
+    if n == 0:
+        return b''
+    b = n.to_bytes((n.bit_length() + 7) // 8, 'little')
+    if b[-1] & 0x80:
+        b += b'\x00'
+    return b
+
+
+def push(data):
+    data = bytes(data)
+    if len(data) <= 75:
+        return bytes((len(data),)) + data
+    if len(data) <= 255:
+        return bytes((OP_PUSHDATA1, len(data))) + data
+    return bytes((OP_PUSHDATA2,)) + len(data).to_bytes(2, 'little') + data
+
+
+def timelock_script(height, h160):
+    """BIP65 time-locked pay-to-pubkey-hash redeem script:
+    <height> OP_CHECKLOCKTIMEVERIFY OP_DROP OP_DUP OP_HASH160 <20> OP_EQUALVERIFY OP_CHECKSIG"""
+    return push(script_num(height)) + bytes((OP_CHECKLOCKTIMEVERIFY, OP_DROP)) + p2pkh_script(h160)
+
+
+def timelock_parts(redeem):
+    """(height, pubkey hash) of a redeem script of the shape above, else None."""
+    try:
+        toks = tokens(redeem)
+    except ScriptError:
+        return None
+    if len(toks) != 8 or toks[0][1] is None or (toks[1][0], toks[2][0]) != (OP_CHECKLOCKTIMEVERIFY, OP_DROP) \
+            or toks[1][1] is not None or toks[2][1] is not None:
+        return None
+    h = p2pkh_tail_hash(redeem)
+    if h is None:
+        return None
+    raw = toks[0][1]
+    if raw and raw[-1] & 0x80:
+        return None                      # negative lock time
+    return int.from_bytes(raw, 'little'), h
+
+
+def verify_p2sh_timelock_input(tx, index, spent_script, ec):
+    """Independent judgement of one input that redeems a BIP16 output whose redeem script is a time-locked
+    pay-to-pubkey-hash: scriptSig = <signature||01> <pubkey> <redeem script>; hash160(redeem script) is what the
+    spent output pays to; the redeem script pays to hash160(pubkey); ECDSA over the SIGHASH_ALL digest with the
+    *redeem script* as script code (BIP16).  Same result dict as verify_p2pkh_input plus 'redeem', 'height'."""
+    if isinstance(tx, (bytes, bytearray)):
+        tx = btc_tx.decode(bytes(tx))
+    out = {'ok': False, 'why': None, 'code': None}
+    try:
+        toks = tokens(tx['inputs'][index]['script'])
+    except ScriptError as e:
+        out.update(why=f'scriptSig: {e}', code='scriptsig-shape')
+        return out
+    if len(toks) != 3 or any(t[1] is None for t in toks):
+        out.update(why=f'scriptSig is not three pushes ({len(toks)} tokens)', code='scriptsig-shape')
+        return out
+    sig, pub, redeem = toks[0][1], toks[1][1], toks[2][1]
+    out.update(sig=sig, pubkey=pub, redeem=redeem, minimal=all(t[2] for t in toks))
+    want = p2sh_hash(spent_script)
+    if want is None:
+        out.update(why='spent script is not pay-to-script-hash', code='spent-script')
+        return out
+    if hash160(redeem) != want:
+        out.update(why='hash160(redeem script) differs from the script hash the spent output pays to',
+                   code='redeem-script-hash-mismatch')
+        return out
+    parts = timelock_parts(redeem)
+    if parts is None:
+        out.update(why='redeem script is not a time-locked pay-to-pubkey-hash script', code='redeem-script-shape')
+        return out
+    out['height'] = parts[0]
+    if not sig or sig[-1] != SIGHASH_ALL:
+        out.update(why='signature does not end in the SIGHASH_ALL byte 0x01', code='hashtype-byte')
+        return out
+    if hash160(pub) != parts[1]:
+        out.update(why='hash160(pubkey) differs from the hash the redeem script pays to', code='pubkey-hash-mismatch')
+        return out
+    try:
+        r, s = ec.der_parse_strict(sig[:-1])
+    except ec.EncodingError as e:
+        out.update(why=f'signature is not strict DER: {e}', code='der')
+        return out
+    out.update(r=r, s=s)
+    try:
+        point = ec.decode_point(pub)
+    except ec.EncodingError as e:
+        out.update(why=f'public key: {e}', code='pubkey-encoding')
+        return out
+    if not ec.ecdsa_verify(point, digest_all(tx, index, redeem), r, s):
+        out.update(why='ECDSA verification over the SIGHASH_ALL digest (redeem script as script code) fails',
+                   code='ecdsa-verify')
+        return out
+    out['ok'] = True
+    return out
+
+
 def selftest(fixtures=None):
     """Validates the preimage construction on real main-net transactions: every input of the LBRY
     main-net fixtures whose scriptSig is <sig> <pubkey> is assumed to spend a plain P2PKH output of that
@@ -199,6 +316,11 @@ def selftest(fixtures=None):
         except ScriptError:
             continue
         raise AssertionError('truncated push accepted')
+    assert script_num(0) == b'' and script_num(127) == b'\x7f' and script_num(128) == b'\x80\x00' \
+        and script_num(0xFFFFFFFF) == b'\xff\xff\xff\xff\x00' and script_num(500000000) == bytes.fromhex('0065cd1d')
+    rs = timelock_script(500000000, b'\x33' * 20)
+    assert rs.hex() == '040065cd1db17576a914' + '33' * 20 + '88ac' and timelock_parts(rs) == (500000000, b'\x33' * 20)
+    assert p2sh_hash(p2sh_script(hash160(rs))) == hash160(rs) and p2sh_hash(p2pkh_script(b'\x11' * 20)) is None
     verified = 0
     for raw in (fixtures or []):
         tx = btc_tx.decode(raw)
